@@ -15,7 +15,9 @@ DRAWS = 3
 
 def describe(tier):
     return {
-        "rule": "TLS: all table suites x valid versions (x TLS 1.3 with/without handshake secrets) x 3 data draws; QUIC: initial "
+        "rule": "TLS: all table suites x valid versions (x TLS 1.3 with/without handshake secrets) x 3 data draws, and three TLS 1.3 "
+                "connections in one run for every pattern of complete / traffic-only key-log entries; QUIC (incl. every ordered pair "
+                "offered-first / negotiated suite): initial "
                 "DCID length 0..20 x 4 suites x generations 0..3 x early secret present/absent (+ Retry) x 3 draws. "
                 "non-trivial: every structural case whose installed material was compared; distinct = (structure, draw)",
         "exhaustive": False,
@@ -46,6 +48,13 @@ def cases(tier, seed):
         for dl in range(0, 21):
             yield {"kind": "quic", "suite": suite, "odcid_len": dl, "seed": seed, "draws": DRAWS if tier == "quick" else 12}
         yield {"kind": "quic", "suite": suite, "odcid_len": 8, "retry": True, "seed": seed, "draws": DRAWS if tier == "quick" else 12}
+        for first in (0x1301, 0x1302, 0x1303, 0x1304):
+            if first != suite:
+                # the server selects a suite that is not the client's first choice
+                yield {"kind": "quic", "suite": suite, "odcid_len": 8, "offered": [first, suite], "seed": seed,
+                       "draws": DRAWS if tier == "quick" else 12}
+    for code in (0x1301, 0x1302, 0x1303, 0x1304, 0x1305):
+        yield {"kind": "tls13_pair", "suite": code, "seed": seed}
 
 
 def b(x):
@@ -108,12 +117,50 @@ def run_case(case):
                         outcomes.add(str(sorted((k, len(x)) for k, x in want.items())))
                         if sample is None:
                             sample = {"case": sig, "compared": {k: x.hex() for k, x in want.items()}}
+    elif case["kind"] == "tls13_pair":
+        # several TLS 1.3 connections in ONE run, with complete and with traffic-only key-log entries, in every order
+        code = case["suite"]
+        import itertools
+        for pattern in itertools.product((True, False), repeat=3):
+            flows = [scen.tls_flow({"version": tls.TLS13, "suite": code, "hs_secrets": hs, "history": [("c", 3), ("s", 3)]}, seed, i,
+                                   key=("pair", str(pattern))) for i, hs in enumerate(pattern)]
+            ends = {f.id: f.ends for f in flows}
+            pk = cap.stamp([p for f in flows for p in f.pkts], ends)
+            kl = [l for f in flows for l in f.keylog()]
+            res, (sessions, _q) = scen.run(pk, kl, want_objects=True)
+            n += 1
+            sig = {"kind": "tls13_pair", "suite": f"{code:#06x}", "hs_secrets_pattern": str(pattern)}
+            if not res.ok or len(sessions) != 3:
+                fails.append({"kind": "no_keys_installed", "sig": sig, "detail": res.status + res.detail[-300:]})
+                continue
+            diffs = []
+            for f, sess, hs in zip(flows, sessions, pattern):
+                d = sess.decryptor
+                km = f.conn.km
+                want = {"client_application_key": km["cap"].key, "client_application_iv": km["cap"].iv,
+                        "server_application_key": km["sap"].key, "server_application_iv": km["sap"].iv}
+                if hs:
+                    want.update({"client_handshake_key": km["chs"].key, "client_handshake_iv": km["chs"].iv,
+                                 "server_handshake_key": km["shs"].key, "server_handshake_iv": km["shs"].iv})
+                else:
+                    # without handshake secrets the session must fall back to ITS OWN application keys
+                    want.update({"client_handshake_key": km["cap"].key, "server_handshake_key": km["sap"].key})
+                for name, w in want.items():
+                    g = b(getattr(d, name, None)) if d is not None else None
+                    if g != w:
+                        diffs.append(f"connection {f.id} {name}: installed {g.hex() if g else None} rfc {w.hex()}")
+            if diffs:
+                fails.append({"kind": "installed_key_differs", "sig": sig, "detail": "; ".join(diffs)[:600]})
+            else:
+                nontriv.append(engine.jhash(sig))
     else:
         suite, dl = case["suite"], case["odcid_len"]
         hname, key_len, kind = quic.SUITES[suite]
         for early in (False, True):
             for draw in range(case.get("draws", DRAWS)):
                 opts = {"suite": suite, "odcid_len": dl, "script": [], "early_secret_in_log": early, "retry": bool(case.get("retry"))}
+                if case.get("offered"):
+                    opts["offered"] = case["offered"]
                 conn = scen.quic_conn(opts, seed, key=("draw", draw))
                 gens = 3
                 for g in range(gens + 1):
@@ -124,7 +171,8 @@ def run_case(case):
                 pk = cap.stamp(scen.quic_packets(conn), {0: ends})
                 res, (_s, qs) = scen.run(pk, conn.keylog, want_objects=True)
                 n += 1
-                sig = {"kind": "quic", "suite": f"{suite:#06x}", "odcid_len": dl, "early": early, "retry": bool(case.get("retry"))}
+                sig = {"kind": "quic", "suite": f"{suite:#06x}", "odcid_len": dl, "early": early, "retry": bool(case.get("retry")),
+                       "offered_first": f"{case['offered'][0]:#06x}" if case.get("offered") else "negotiated"}
                 if not res.ok or len(qs) != 1:
                     fails.append({"kind": "no_session", "sig": sig, "detail": res.status + res.detail[-300:]})
                     continue
